@@ -6,6 +6,7 @@ require github.com/goose-lang/goose v0.0.0
 
 require (
 	github.com/goose-lang/primitive v0.1.0 // indirect
+	github.com/pkg/errors v0.9.1 // indirect
 	golang.org/x/sys v0.22.0 // indirect
 )
 
